@@ -785,6 +785,21 @@ def fam_regress(tier, seed):
             {"at": 0, "do": "start", "i": "A"}, {"at": H // 4, "do": "start", "i": "B"},
             {"at": int(2.3 * H), "do": "stopctx", "i": "A", "del": True},
             {"at": int(4.6 * H), "do": "out_put", "cls": "as:A"}], "regress", 16 * H + 8 * S, lat=20 * MS, watch=30 * MS))
+        # 23. a stop call that has left its critical section but not yet written its log line (scheduler gate there), and the
+        #     answer of an acquisition that was in flight arrives in that window: a stopped election takes no leadership
+        out.append(scn("reg-acquisition-answered-inside-stop-%d" % k, seed * 1000 + k, H, ratio,
+                       [inst("A"), inst("B", gate_log="election_stopped", gate_free=True)], [
+            {"at": 0, "do": "start", "i": "A"}, {"at": H // 10, "do": "start", "i": "B"},
+            {"at": int(2.5 * H), "do": "stopctx", "i": "A", "del": True},
+            {"when": {"i": "B", "kind": "create", "src": "acq", "nth": 6, "phase": "post"}, "do": "stop", "i": "B",
+             "then": [{"do": "sleep", "us": 50 * MS}], "release": "now"},
+            {"at": int(2.5 * H) + 1 * S, "do": "release_gate", "i": "B"}], "regress", 9 * H + 2 * S, lat=20 * MS, watch=30 * MS))
+        # 24. a stop call issued while a successful Create has been answered and the instance stands before its promotion
+        #     (scheduler gate at the "acquire_success" log line)
+        out.append(scn("reg-stop-between-create-answer-and-promotion-%d" % k, seed * 1000 + k, H, ratio,
+                       [inst("A", gate_log="acquire_success", gate_free=True), inst("B")], [
+            {"at": 0, "do": "start", "i": "A"}, {"at": 100 * MS, "do": "stop", "i": "A"}, {"at": 200 * MS, "do": "release_gate", "i": "A"},
+            {"at": 300 * MS, "do": "start", "i": "B"}], "regress", 9 * H + 2 * S, lat=20 * MS, watch=30 * MS))
         # 19. a heartbeat tick held by a hanging health check while the leader is preempted and, as a follower, observes its
         #     successor's next refresh: when the check returns the tick must not go on to the Update
         out.append(scn("reg-hanging-check-across-preemption-%d" % k, seed * 1000 + k, H1, 5.0,
